@@ -80,8 +80,11 @@ func isZeroConst(v ssa.Value) bool {
 }
 
 func runC03(c *core.Ctx) {
+	ruleNoSwallowedLayerErrors(c, "R10.swallow", moduleErrCallee, "/pwr", "/pwr/patcher", "/pwr/bowl", "/pwr/rediff", "/pwr/overlay", "/wire", "/wsync", "/bsdiff", "/bsdiff/lrufile", "/multiread", "/ctxcopy")
+	ruleNoDroppedLayerErrors(c, "R10.err", "/pwr", "/pwr/patcher", "/pwr/bowl", "/pwr/rediff", "/pwr/overlay", "/wire", "/wsync", "/bsdiff", "/multiread", "/ctxcopy")
 	c.Rule("R13.2", "reader save protocol (shared with C13): the message checkpoint is one of the layers")
 	ruleSaveProtocol(c)
+	rulePerFileStateCleared(c, "R17.6")
 	for id, d := range map[string]string{
 		"R03.1": "save/restore field symmetry (type level and per implementation)",
 		"R03.2": "checkpoint literal completeness at Save sites",
